@@ -89,6 +89,7 @@ def run(P: Program, R: Report, tier: str) -> None:
         "the time facts used rest on strict comparisons",
         "undo/redo re-apply recorded inverses in timeline order",
     ]
+    R.decides += ['history shape, one history step per top-level action, inverse() leaves the recorded step alone; no positional reads of per-track lists; memo discipline of the data-model queries']
     R.not_decided += [
         "the inductive step in full generality (AX-FOREST / AX-TRACKPATH are assumed at the start of each action)",
     ]
